@@ -821,7 +821,9 @@ fn gen_phase_history(rng: &mut Rng) -> (Params, Vec<SStep>) {
 }
 
 fn emit_history(p: &Params, steps: &[SStep], em: &mut Emitter, discarded: &mut u64) {
-    for _ in 0..5 {
+    // histories with real sleeps are expensive: one more attempt only
+    let tries = if steps.iter().any(|s| matches!(s, SStep::Wait(_))) { 1 } else { 5 };
+    for _ in 0..tries {
         match guarded_exec(p, steps) {
             Ok(Some(x)) => {
                 em.emit(&x.case, &x.result);
